@@ -38,7 +38,21 @@ def main_patch(args):
     after = patch_notebook(before, diff)
 
     if output_filename:
-        nbformat.write(after, output_filename)
+        # Open the output only when the complete content exists, so that a
+        # failure to serialise or encode it leaves what is there untouched
+        text = nbformat.writes(after)
+        if not text.endswith("\n"):
+            text += "\n"
+        try:
+            data = text.encode("utf8")
+        except UnicodeEncodeError:
+            # A lone surrogate (valid in JSON as an escape) cannot be
+            # written as UTF-8: write the notebook with escapes instead
+            data = nbformat.writes(after, ensure_ascii=True).encode("ascii")
+            if not data.endswith(b"\n"):
+                data += b"\n"
+        with io.open(output_filename, "wb") as outfile:
+            outfile.write(data)
     else:
         try:
             nbformat.validate(after, version=4)
